@@ -194,3 +194,13 @@ type c09G struct {
 
 //verif:opt maxpaths=4000 reach=accepted,rejected
 func Harness_C09_G_decode() { c09DecodeLaw[c09G](5 + vChoice("len", 7)) }
+
+// Vectors whose declared maximum is far larger than any input: the decoder must check the
+// length prefix against the remaining input before allocating.
+type c09H struct {
+	V []uint64 `tls:"minlen:0,maxlen:16777215"`
+	W []byte   `tls:"minlen:0,maxlen:16777215"`
+}
+
+//verif:opt maxpaths=4000 reach=accepted,rejected
+func Harness_C09_H_decode() { c09DecodeLaw[c09H](6 + vChoice("len", 6)) }
